@@ -14,3 +14,156 @@ Theorem C01_strict_no_oob : forall bs et b, bytes_ok bs ->
   SlicedPacket.from_ether_type et bs <> Bug b /\ SlicedPacket.from_ip bs <> Bug b.
 Proof. exact strict_never_bug. Qed.
 Print Assumptions C01_strict_no_oob.
+
+(* ======================================================================== *)
+(* Accessors, conversions and iterators reachable from the strict slice types
+   (Parse/Access.v, proofs in Parse/AccessProofs.v).  In the model an accessor
+   is a function of the stored slice value only; its unchecked reads /
+   from_raw_parts / unwrap(_unchecked) are partial.  `nobug r` = r is not `Bug`. *)
+From EP Require Import Parse.Repr Parse.Access Parse.AccessProofs.
+
+(* every component stored in the result of a strict whole-packet entry point was
+   produced by the corresponding from_slice on a window of the input ... *)
+Theorem C01_sliced_wf : forall bs et p, entry bs et p -> sliced_wf bs p.
+Proof. exact sliced_wf_entry. Qed.
+Print Assumptions C01_sliced_wf.
+
+(* ... hence no accessor / to_header / to_packet / extension iterator (and no
+   accessor of a yielded extension header) of any component performs an
+   out-of-bounds unchecked read or from_raw_parts, or a failing unwrap_unchecked:
+   `SlicedPacketA.accessors p` lists one run of EVERY accessor of EVERY component *)
+Theorem C01_accessors_no_oob : forall bs et p, bytes_ok bs -> entry bs et p ->
+  sliced_wf bs p /\ forall r, In r (SlicedPacketA.accessors p) -> forall b, r <> Bug b.
+Proof. exact packet_accessors_no_bug. Qed.
+Print Assumptions C01_accessors_no_oob.
+
+(* every sub-slice stored in the result or handed back by an accessor (header /
+   payload / options / ICV / address / extension-header windows) lies inside the
+   input, and its contents are the bytes of the input at that position *)
+Theorem C01_windows_inside : forall bs et p, bytes_ok bs -> entry bs et p ->
+  forall r, In r (SlicedPacketA.windows p) ->
+    exists w, r = Ok w /\ s_off w + s_len w <= len bs /\
+              snd w = take (s_len w) (drop (s_off w) bs).
+Proof. exact packet_windows_inside. Qed.
+Print Assumptions C01_windows_inside.
+
+(* single layers: for EVERY slice s (no buffer, no byte-range assumption) and every
+   value the constructor returns for it, all accessors are Bug-free and all returned
+   windows are sub-slices of s; the three conversions that rely on "a byte is < 256"
+   (ArpPacket::new_unchecked, IpAuthHeader::new().unwrap(), Ipv6RawExtHeader::new_raw()
+   .unwrap()) need bytes_ok.  The statement is the conjunction over all types. *)
+Theorem C01_single_layer_accessors :
+  (forall s e, Ethernet2A.from_slice_without_fcs s = Ok e \/ Ethernet2A.from_slice_with_crc32_fcs s = Ok e ->
+     Forall nobug (Ethernet2A.accessors e) /\ Forall (win_ok s) (Ethernet2A.windows e)) /\
+  (forall s v, SingleVlanSlice.from_slice s = Ok v ->
+     Forall nobug (SingleVlanA.accessors v) /\ Forall (win_ok s) (SingleVlanA.windows v)) /\
+  (forall s h, LinuxSll.header_from_slice s = Ok h ->
+     Forall nobug (LinuxSllHeaderA.accessors h) /\ Forall (win_ok s) (LinuxSllHeaderA.windows h)) /\
+  (forall s x, LinuxSll.from_slice s = Ok x ->
+     Forall nobug (LinuxSllA.accessors x) /\ Forall (win_ok s) (LinuxSllA.windows x)) /\
+  (forall s h, Macsec.header_from_slice s = Ok h -> Forall nobug (MacsecHeaderA.accessors h)) /\
+  (forall s m, Macsec.from_slice s = Ok m -> Forall nobug (MacsecA.accessors m)) /\
+  (forall s a, ArpPacketSlice.from_slice s = Ok a ->
+     Forall nobug (ArpPacketA.accessors a) /\ Forall (win_ok s) (ArpPacketA.windows a) /\
+     (bytes_ok (snd s) -> Forall nobug (ArpPacketA.conversions a))) /\
+  (forall s h, Ipv4HeaderSlice.from_slice s = Ok h ->
+     Forall nobug (Ipv4HeaderA.accessors h) /\ Forall (win_ok s) (Ipv4HeaderA.windows h)) /\
+  (forall s h, IpAuthHeaderSlice.from_slice s = Ok h ->
+     Forall nobug (IpAuthHeaderA.accessors h) /\ Forall (win_ok s) (IpAuthHeaderA.windows h) /\
+     (bytes_ok (snd s) -> Forall nobug (IpAuthHeaderA.conversions h))) /\
+  (forall s h, Ipv6HeaderSlice.from_slice s = Ok h -> Forall nobug (Ipv6HeaderA.accessors h)) /\
+  (forall s h, Ipv6RawExtHeaderSlice.from_slice s = Ok h ->
+     Forall nobug (Ipv6RawExtHeaderA.accessors h) /\ Forall (win_ok s) (Ipv6RawExtHeaderA.windows h) /\
+     (bytes_ok (snd s) -> Forall nobug (Ipv6RawExtHeaderA.conversions h))) /\
+  (forall s h, Ipv6FragmentHeaderSlice.from_slice s = Ok h -> Forall nobug (Ipv6FragmentHeaderA.accessors h)) /\
+  (forall s v, Ipv4Slice.from_slice s = Ok v \/ IpSlice.from_slice s = Ok (IpV4 v) ->
+     bytes_ok (snd s) -> Forall nobug (Ipv4SliceA.accessors v)) /\
+  (forall s v, Ipv6Slice.from_slice s = Ok v \/ IpSlice.from_slice s = Ok (IpV6 v) ->
+     bytes_ok (snd s) ->
+     Forall nobug (Ipv6SliceA.accessors v) /\ Forall (win_ok s) (Ipv6SliceA.windows v)) /\
+  (forall s h, UdpSlice.header_from_slice s = Ok h -> Forall nobug (UdpA.header_accessors h)) /\
+  (forall s u, UdpSlice.from_slice s = Ok u \/ UdpSlice.from_slice_lax s = Ok u ->
+     Forall nobug (UdpA.accessors u) /\ Forall (win_ok s) (UdpA.windows u)) /\
+  (forall s x, TcpSlice.from_slice s = Ok x ->
+     Forall nobug (TcpSliceA.accessors x) /\ Forall (win_ok s) (TcpSliceA.windows x)) /\
+  (forall s h, TcpHeaderSliceA.from_slice s = Ok h ->
+     Forall nobug (TcpHeaderSliceA.accessors h) /\ Forall (win_ok s) (TcpHeaderSliceA.windows h)) /\
+  (forall s v, Icmpv4Slice.from_slice s = Ok v ->
+     Forall nobug (Icmpv4A.accessors v) /\ Forall (win_ok s) (Icmpv4A.windows v)) /\
+  (forall s v, Icmpv6Slice.from_slice s = Ok v ->
+     Forall nobug (Icmpv6A.accessors v) /\ Forall (win_ok s) (Icmpv6A.windows v)).
+Proof. exact single_layer_ok. Qed.
+Print Assumptions C01_single_layer_accessors.
+
+(* `win_ok s r` is more than arithmetic: r = Ok w with w = from_raw_parts inside s *)
+Theorem C01_window_arith : forall s r, win_ok s r ->
+  exists w, r = Ok w /\ s_off s <= s_off w /\ s_off w + s_len w <= s_off s + s_len s.
+Proof. exact win_ok_arith. Qed.
+Print Assumptions C01_window_arith.
+
+(* the extension iterator yields exactly headers that from_slice validated: each
+   yielded slice satisfies the invariant of its type and lies inside the exts slice *)
+Theorem C01_exts_iter_items : forall nh s x nx rest,
+  Ipv6ExtensionsSlice.from_slice nh s = Ok (x, nx, rest) ->
+  exists l, Ipv6ExtIterA.items x = Ok l /\
+            8 * len l <= s_len (x6_slice x) /\
+            tiles (s_off (x6_slice x)) (map item_win l) (s_off (x6_slice x) + s_len (x6_slice x)) /\
+            Forall item_wf l /\
+            Forall (fun i => sub_of (ext_item_slice i) (x6_slice x)) l.
+Proof. exact exts_iter_bounded. Qed.
+Print Assumptions C01_exts_iter_items.
+
+(* ---- non-vacuity ---------------------------------------------------------- *)
+(* the Ethernet / VLAN / IPv4 / UDP packet `ex_pkt` of Props/C03.v *)
+Definition ex_pkt_acc : bytes :=
+  [1;2;3;4;5;6; 7;8;9;10;11;12; 129;0;  0;5; 8;0;
+   69;0;0;32; 0;0;0;0; 64;17;0;0; 1;2;3;4; 5;6;7;8;
+   0;1;0;2;0;12;0;0; 170;187;204;221].
+(* IPv6 / hop-by-hop / destination options / fragment (offset 0, last) / UDP *)
+Definition ex6_pkt_acc : bytes :=
+  [96;0;0;0; 0;32; 0; 64] ++ repeat 1 16 ++ repeat 2 16 ++
+  [60;0;0;0;0;0;0;0] ++ [44;0;1;4;0;0;0;0] ++ [17;0;0;0;0;0;0;1] ++ [0;1;0;2;0;8;0;0].
+
+Definition isok {A} (r : res A) : bool := match r with Ok _ => true | _ => false end.
+Definition wins (l : list (res slice)) : list (option window) :=
+  map (fun r => match r with Ok w => Some (win_of w) | _ => None end) l.
+
+Example C01_accessors_ex :
+  bytes_ok ex_pkt_acc /\
+  match SlicedPacket.from_ethernet ex_pkt_acc with
+  | Ok p => (length (SlicedPacketA.accessors p), forallb isok (SlicedPacketA.accessors p),
+             wins (SlicedPacketA.windows p))
+  | _ => (0%nat, false, [])
+  end =
+  (45%nat, true,
+   [Some (0, 50); Some (0, 14); Some (14, 36);           (* Ethernet II: slice, header, payload *)
+    Some (14, 36); Some (14, 4); Some (18, 32);          (* VLAN: slice, header, payload *)
+    Some (18, 20); Some (38, 12); Some (38, 0);          (* IPv4: header, payload, options *)
+    Some (38, 12); Some (38, 8); Some (46, 4)]) /\       (* UDP: slice, header, payload *)
+  (Ethernet2A.to_header (mkEth2 0 (mk_slice ex_pkt_acc)),
+   SingleVlanA.to_header (14, skipn 14 ex_pkt_acc),
+   UdpA.to_header (38, skipn 38 ex_pkt_acc)) =
+  (Ok ([7; 8; 9; 10; 11; 12], [1; 2; 3; 4; 5; 6], 33024), Ok (0, false, 5, 2048), Ok (1, 2, 12, 0)).
+Proof. split; [apply bytes_okb_spec; vm_compute; reflexivity|split; vm_compute; reflexivity]. Qed.
+
+Example C01_exts_iter_ex :
+  bytes_ok ex6_pkt_acc /\
+  match SlicedPacket.from_ip ex6_pkt_acc with
+  | Ok (mkSliced _ _ (Some (NtIpv6 v)) (Some (TrUdp _)) as p) =>
+      (length (SlicedPacketA.accessors p), forallb isok (SlicedPacketA.accessors p),
+       match Ipv6ExtIterA.items (v6_exts v) with
+       | Ok l => Some (map item_win l, map (fun x => forallb isok (Ipv6ExtIterA.item_accessors x)) l)
+       | _ => None
+       end)
+  | _ => (0%nat, false, None)
+  end = (32%nat, true, Some ([(40, 8); (48, 8); (56, 8)], [true; true; true])).
+Proof. split; [apply bytes_okb_spec; vm_compute; reflexivity|vm_compute; reflexivity]. Qed.
+
+(* the accessors are genuinely partial: on values that no constructor returns they DO hit Bug *)
+Example C01_accessors_partial_ex :
+  Ethernet2A.ether_type (mkEth2 0 (mk_slice [1;2;3])) = Bug SITE_RD /\
+  Ipv4HeaderA.options (mk_slice [69;0;0;0]) = Bug SITE_SUBTRACT /\
+  Ipv6ExtIterA.collect 5 (mkExtIter 60 (mk_slice [43;1;0;0;0;0;0;0])) = Bug SITE_SUB /\
+  LinuxSllHeaderA.packet_type (mk_slice [0;9;0;1;0;0;0;0;0;0;0;0;0;0;8;0]) = Bug SITE_UNWRAP /\
+  IpAuthHeaderA.to_header (mk_slice [17;0;0;0;0;0;0;0;0;0;0;0;0;0]) = Bug SITE_UNWRAP.
+Proof. vm_compute. repeat split. Qed.
